@@ -21,6 +21,23 @@ def items_of(v: Any, string_sequences: bool) -> list:
     return []
 
 
+def range_bound(v: Any) -> int:
+    """A range bound that is not a number counts as 0, each bound on its own (nil, undefined, a non-numeric string); a numeric
+    string or a float is converted to an integer."""
+    if isinstance(v, bool):
+        return 0 if not isinstance(v, int) else int(v)
+    if isinstance(v, int):
+        return v
+    if isinstance(v, float):
+        return int(v)
+    if isinstance(v, str):
+        try:
+            return int(v)
+        except ValueError:
+            return 0
+    return 0
+
+
 def fmt(v: Any) -> str:
     """How a scalar item is rendered by {{ item }} (scalars only are generated)."""
     if v is None:
@@ -53,8 +70,8 @@ class LoopModel:
             return self.data.get(c["name"])
         if c["form"] == "range":
             a, b = c["a"], c["b"]
-            a = self.data.get(a) if isinstance(a, str) else a
-            b = self.data.get(b) if isinstance(b, str) else b
+            a = range_bound(self.data.get(a) if isinstance(a, str) else a)
+            b = range_bound(self.data.get(b) if isinstance(b, str) else b)
             return range(a, b + 1) if a <= b else range(0)
         raise ValueError(c)
 
